@@ -44,6 +44,8 @@ type FuncContract struct {
 	Decreases ast.Expr
 	Flags     map[string]bool
 	Lemmas    []Lemma
+	Codec     string
+	CodecDir  string
 	Fn        *ssa.Function
 	Set       *Set
 }
@@ -254,6 +256,12 @@ func (fc *FuncContract) clause(word, rest string) error {
 		default:
 			return fmt.Errorf("unknown loop clause %s", parts[1])
 		}
+	case "codec":
+		f := strings.Fields(rest)
+		if len(f) != 2 {
+			return fmt.Errorf("codec <Message> decode|encode")
+		}
+		fc.Codec, fc.CodecDir = f[0], f[1]
 	case "pure", "inline", "trusted", "nopanic":
 		fc.Flags[word] = true
 	default:
@@ -707,6 +715,13 @@ func (e *Env) call(n *ast.CallExpr) TV {
 			return TV{V: sym.Scalar{T: BVC(64, uint64(len(v.Elems)))}, T: types.Typ[types.Int]}
 		}
 		bad("len of %T", a.V)
+	case "ghost_alloc":
+		// octets allocated so far by the function under check (ghost counter)
+		g, ok := e.state().Ghost["alloc"]
+		if !ok {
+			g = BVC(64, 0)
+		}
+		return TV{V: sym.Scalar{T: g}, T: types.Typ[types.Int]}
 	case "buflen":
 		// unread octets of a *bytes.Buffer / *bytes.Reader value
 		a := e.deref(e.eval(n.Args[0]))
